@@ -1,8 +1,376 @@
 import Karp.Driver.Proto
+import Karp.Model.Drain
+import Karp.Spec.Drain
 
 namespace Karp.Driver.C10
-open Lean Karp.Driver
+open Lean Karp.Driver Karp.Drain
+open Karp.Gen
 
-def handle : Handler := fun op _ _ => .error s!"unknown op {op}"
+/-! ## from the Kubernetes-level pod description to what the drain logic reads -/
+
+structure Tol where
+  key : String
+  op : String
+  val : String
+  eff : String
+
+/-- the names the abstraction of a pod depends on -/
+structure Tables where
+  critical : List String
+  nodeOwner : String × String
+  dsOwner : String × String
+  taintKey : String
+  taintValue : String
+  taintEffect : String
+
+/-- as the code has them (regenerated from the source): used for the model -/
+def genTables : Tables :=
+  { critical := C10Drain.criticalPriorityClasses, nodeOwner := C10Drain.nodeOwner, dsOwner := C10Drain.daemonSetOwner,
+    taintKey := C10Drain.disruptedNoScheduleTaintKey, taintValue := C10Drain.disruptedNoScheduleTaintValue,
+    taintEffect := C10Drain.disruptedNoScheduleTaintEffect }
+
+/-- as Kubernetes and the property text define them: used for the specification.  "critical" = the two system
+    priority classes; static pod = owned by a `v1` `Node`; daemon pod = owned by an `apps/v1` `DaemonSet`;
+    disruption taint = `karpenter.sh/disrupted:NoSchedule`. -/
+def specTables : Tables :=
+  { critical := ["system-cluster-critical", "system-node-critical"], nodeOwner := ("v1", "Node"),
+    dsOwner := ("apps/v1", "DaemonSet"), taintKey := "karpenter.sh/disrupted", taintValue := "",
+    taintEffect := "NoSchedule" }
+
+/-- `Toleration.ToleratesTaint` (Kubernetes rule, modelled) for the disruption taint
+    (the numeric operators never match a non-numeric taint value) -/
+def tolTolerates (tb : Tables) (t : Tol) : Bool :=
+  (t.eff.isEmpty || t.eff == tb.taintEffect) &&
+  (t.key.isEmpty || t.key == tb.taintKey) &&
+  (if t.op == "" || t.op == "Equal" then t.val == tb.taintValue
+   else if t.op == "Exists" then true
+   else if t.op == "Lt" || t.op == "Gt" then
+     -- compareNumericValues: both values must be decimal integers; the taint's value is not
+     false
+   else false)
+
+/-- units of `time.ParseDuration` -/
+def unitNs (u : String) : Option Int :=
+  match u with
+  | "ns" => some 1
+  | "us" => some 1000
+  | "µs" => some 1000
+  | "μs" => some 1000
+  | "ms" => some 1000000
+  | "s" => some 1000000000
+  | "m" => some 60000000000
+  | "h" => some 3600000000000
+  | _ => none
+
+/-- `time.ParseDuration` restricted to values without a fraction: `[+-]?(digits unit)+` or `0`.
+    `none` = parse error. -/
+def parseDuration (s : String) : Option Int :=
+  let cs := s.toList
+  let (neg, cs) := match cs with
+    | '-' :: r => (true, r)
+    | '+' :: r => (false, r)
+    | r => (false, r)
+  if cs == ['0'] then some 0
+  else if cs.isEmpty then none
+  else
+    let rec go (fuel : Nat) (cs : List Char) (acc : Int) : Option Int :=
+      match fuel with
+      | 0 => none
+      | fuel + 1 =>
+        if cs.isEmpty then some acc
+        else
+          let ds := cs.takeWhile Char.isDigit
+          let rest := cs.dropWhile Char.isDigit
+          if ds.isEmpty then none
+          else
+            let n : Int := ds.foldl (fun a c => a * 10 + (c.toNat - '0'.toNat : Nat)) 0
+            let us := rest.takeWhile (fun c => !(c.isDigit || c == '.'))
+            let rest' := rest.dropWhile (fun c => !(c.isDigit || c == '.'))
+            match unitNs (String.ofList us) with
+            | none => none
+            | some m => go fuel rest' (acc + n * m)
+    match go (cs.length + 1) cs 0 with
+    | none => none
+    | some v => some (if neg then -v else v)
+
+def parseDnd (v : Option String) : Except String Dnd :=
+  match v with
+  | none => pure .absent
+  | some s =>
+    if s == "true" then pure .forever
+    else if s.contains '.' then throw s!"do-not-disrupt value {s} is outside the modelled vocabulary (fractions)"
+    else match parseDuration s with
+      | none => pure .invalid
+      | some d => if d ≤ 0 then pure .invalid else pure (.dur d)
+
+def parseTol (j : Json) : Except String Tol := do
+  pure { key := (← strF j "key"), op := (← strF j "op"), val := (← strF j "val"), eff := (← strF j "eff") }
+
+def parseOwner (j : Json) : Except String (String × String) := do
+  match (← asArr j) with
+  | [a, b] => pure ((← asStr a), (← asStr b))
+  | _ => throw "owner must be [apiVersion, kind]"
+
+def parsePod (tb : Tables) (idx : Nat) (j : Json) : Except String Pod := do
+  let prio ← strF j "prio"
+  let owners ← (← arrF j "owners").mapM parseOwner
+  let tols ← (← arrF j "tols").mapM parseTol
+  let grace ← intO j "grace"
+  let dnd ← parseDnd (← strO j "dnd")
+  let start ← intO j "start"
+  let phase ← strF j "phase"
+  let del ← intO j "del"
+  let other ← boolF j "other"
+  pure {
+    uid := idx
+    onNode := !other
+    terminal := phase == "Succeeded" || phase == "Failed"
+    del := del.map (· * sec)
+    grace := grace
+    tolerates := tols.any (tolTolerates tb)
+    static := owners.any (· == tb.nodeOwner)
+    daemon := owners.any (· == tb.dsOwner)
+    critical := tb.critical.contains prio
+    dnd := dnd
+    start := start.map (· * sec) }
+
+/-! ## c10.preds -/
+
+def preds (inp impl : Json) : Except String Resp := do
+  let p ← parsePod genTables 0 (← fld inp "pod")
+  let ps ← parsePod specTables 0 (← fld inp "pod")
+  let now ← intF inp "now"
+  let D ← intO inp "d"
+  let model := jObj [
+    ("terminal", jBool p.terminal),
+    ("terminating", jBool (isTerminating p)),
+    ("active", jBool (isActive p)),
+    ("stuck", jBool (isStuckTerminating p now)),
+    ("tolerates", jBool p.tolerates),
+    ("static", jBool p.static),
+    ("daemon", jBool p.daemon),
+    ("dndActive", jBool (dndActive p now)),
+    ("disruptable", jBool (isDisruptable p now)),
+    ("drainable", jBool (isDrainable p now)),
+    ("waiting", jBool (isWaitingEviction p now)),
+    ("evictable", jBool (isEvictable p now)),
+    ("forcedEligible", jBool (forcedEligible p D))]
+  -- the property's reading of the predicates, on what the real code answered
+  let (ok, why) ← match fldOpt impl "evictable" with
+    | none => pure (false, "implementation produced no verdicts (panic?)")
+    | some _ => do
+      let ev ← boolF impl "evictable"
+      let wt ← boolF impl "waiting"
+      let dr ← boolF impl "drainable"
+      let fe ← boolF impl "forcedEligible"
+      let pOn := { ps with onNode := true }
+      let tol ← boolF impl "tolerates"
+      let st ← boolF impl "static"
+      let dm ← boolF impl "daemon"
+      if tol != ps.tolerates then
+        pure (false, s!"ToleratesDisruptedNoScheduleTaint = {tol} but by the Kubernetes toleration rule the pod {if ps.tolerates then "tolerates" else "does not tolerate"} karpenter.sh/disrupted:NoSchedule")
+      else if st != ps.static then
+        pure (false, s!"IsOwnedByNode = {st} disagrees with: owned by a v1 Node")
+      else if dm != ps.daemon then
+        pure (false, s!"IsOwnedByDaemonSet = {dm} disagrees with: owned by an apps/v1 DaemonSet")
+      else if ev && !Spec.Drain.mayEvict ps now then
+        pure (false, "IsEvictable is true for a pod the property forbids to evict (terminal/terminating, static, tolerating or actively do-not-disrupt)")
+      else if !ev && Spec.Drain.mayEvict ps now then
+        pure (false, "IsEvictable is false for a pod that may be evicted")
+      else if wt != Spec.Drain.mustWait pOn now then
+        pure (false, s!"IsWaitingEviction = {wt} but the drain {if wt then "must not" else "must"} wait for this pod")
+      else if dr && Spec.Drain.untouchable ps then
+        pure (false, "IsDrainable is true for a static or tolerating pod")
+      else if fe != (Spec.Drain.strictlyPastD ps D now && ps.del.isSome) then
+        pure (false, "IsPodEligibleForForcedEviction disagrees with: terminating and deletionTimestamp after the node deadline")
+      else pure (true, "")
+  pure { model := some model, spec := some ok, why := why }
+
+/-! ## histories -/
+
+def parseEvictAns (s : String) : Except String EvictAns :=
+  match s with
+  | "ok" => pure .ok | "gone" => pure .gone | "429" => pure .tooMany | "multi" => pure .multiPdb
+  | "404" => pure .notFound | "409" => pure .conflict | "500" => pure .other
+  | _ => throw s!"bad eviction answer {s}"
+
+def parseDeleteAns (s : String) : Except String DeleteAns :=
+  match s with
+  | "ok" => pure .ok | "gone" => pure .gone | "404" => pure .notFound | "500" => pure .other
+  | _ => throw s!"bad delete answer {s}"
+
+def parseMut (s : String) : Except String Mut :=
+  match s with
+  | "cleardnd" => pure .cleardnd | "succeed" => pure .succeed | "gone" => pure .gone
+  | "replace" => pure .replace | "kill" => pure .kill
+  | _ => throw s!"bad mutation {s}"
+
+def parseStep (npods : Nat) (j : Json) : Except String Step := do
+  let k ← strF j "k"
+  match k with
+  | "add" =>
+    let ps ← natList (← fld j "ps")
+    if ps.any (· ≥ npods) then throw "bad pod index"
+    pure (.add (← intO j "d") ps)
+  | "drain" | "node" => pure (.drain (← intO j "d"))
+  | "rec" =>
+    let p ← natF j "p"
+    if p ≥ npods then throw "bad pod index"
+    pure (.recon p (← parseEvictAns (← strF j "eo")) (← parseDeleteAns (← strF j "do")))
+  | "tick" =>
+    let ns ← intF j "ns"
+    if ns < 0 then throw "negative tick"
+    pure (.tick ns)
+  | "mut" =>
+    let p ← natF j "p"
+    if p ≥ npods then throw "bad pod index"
+    pure (.change p (← parseMut (← strF j "m")))
+  | _ => throw s!"bad step {k}"
+
+def insertSorted (e : Nat × Option Int) : Items → Items
+  | [] => [e]
+  | x :: xs => if e.1 ≤ x.1 then e :: x :: xs else x :: insertSorted e xs
+
+def sortItems (q : Items) : Items := q.foldl (fun acc e => insertSorted e acc) []
+
+def jItems (q : Items) : Json :=
+  jArr ((sortItems q).map (fun (u, d) => jObj [("u", jNat u), ("d", jOptInt d)]))
+
+def jCall : Call → Json
+  | .evict u => jObj [("k", jStr "evict"), ("u", jNat u), ("g", Json.null), ("pre", jBool true)]
+  | .delete u g => jObj [("k", jStr "delete"), ("u", jNat u), ("g", jInt g), ("pre", jBool true)]
+
+def jStepOut (o : StepOut) : Json :=
+  jObj [("r", jStr o.r), ("calls", jArr (o.calls.map jCall)), ("items", jItems o.items)]
+
+structure ImplCall where
+  call : Option Call      -- none = not expressible (e.g. delete without a grace period)
+  pre : Bool
+  u : Int
+
+def parseImplCall (j : Json) : Except String ImplCall := do
+  let k ← strF j "k"
+  let u ← intF j "u"
+  let pre ← boolF j "pre"
+  let g ← intO j "g"
+  if u < 0 then pure { call := none, pre := pre, u := u }
+  else match k, g with
+    | "evict", _ => pure { call := some (.evict u.toNat), pre := pre, u := u }
+    | "delete", some g => pure { call := some (.delete u.toNat g), pre := pre, u := u }
+    | _, _ => pure { call := none, pre := pre, u := u }
+
+def parseImplItems (j : Json) : Except String Items := do
+  (← asArr j).mapM (fun e => do
+    let u ← intF e "u"
+    if u < 0 then throw "queue holds a pod that is not part of the scenario"
+    pure (u.toNat, (← intO e "d")))
+
+/-- which rule of the specification a step broke (diagnostics only; the verdict is `Spec.Drain.stepOK`) -/
+def explain (strict : Bool) (s : State) (st : Step) (I' : Items) (calls : List Call) (r : String) : String :=
+  let I := s.q
+  match st with
+  | .drain D =>
+    let pods := livePods s
+    if r == "error" then "drain pass failed with an unexpected error"
+    else if !calls.isEmpty then "the drain pass itself sent a removal request"
+    else if !Spec.Drain.keptAndMonotone I I' then "a queued pod was dropped or its deadline moved later / was cleared by a drain pass"
+    else if !Spec.Drain.admittedOK pods D s.now I I' then
+      let bad := (Spec.Drain.keys I').find? (fun u =>
+        !(qget I' u == qget I u ||
+          (pods.any (fun p => p.uid == u && Spec.Drain.enqueueOK pods p D s.now)
+            && qget I' u == some (Spec.Drain.dmin ((qget I u).getD none) D))))
+      match bad with
+      | none => "admission rule"
+      | some u =>
+        match pods.find? (fun p => p.uid == u) with
+        | none => s!"pod {u} was queued although the API server does not list it"
+        | some p =>
+          if !Spec.Drain.mustWait p s.now then
+            s!"pod {u} was queued although the drain must not touch it (finished, static, tolerating the disruption taint, stuck terminating, or on another node)"
+          else if !Spec.Drain.enqueueOK pods p D s.now then
+            s!"daemon or critical pod {u} was queued for eviction while a non-critical non-daemon pod still awaits graceful eviction"
+          else s!"pod {u} is stored under a deadline other than the earlier of its previous deadline and this pass's"
+    else if !Spec.Drain.dueQueued pods D s.now I' then
+      match pods.find? (fun p => Spec.Drain.enqueueDue p D s.now &&
+          !(match qget I' p.uid with | some e' => Spec.Drain.dle e' D | none => false)) with
+      | none => "due rule"
+      | some p =>
+        let kind := if Spec.Drain.strictlyPastD p D s.now then "past deadline-minus-grace" else "non-critical non-daemon"
+        if (qget I' p.uid).isNone then s!"pod {p.uid} ({kind}) is waited for but was not queued by this pass"
+        else s!"pod {p.uid} ({kind}) is queued under a deadline later than this pass's (or none)"
+    else if !Spec.Drain.verdictOK pods s.now (r == "drained") then "drain reported completion while pods are still waited for"
+    else "drain rule"
+  | .recon i _ _ =>
+    match s.pods[i]? with
+    | none => "bad pod index"
+    | some w =>
+      if w.gone then "a pod that no longer exists was acted upon"
+      else
+        let p := w.pod
+        if !Spec.Drain.onlyDrops I I' p.uid then "reconcile changed queue entries other than dropping the reconciled pod"
+        else if calls.length > 1 then "more than one removal request in one reconcile"
+        else match calls.find? (fun c => !Spec.Drain.callOK p s.now I strict c) with
+          | none => "reconcile rule"
+          | some (.evict u) =>
+            if u != p.uid then "eviction of another pod"
+            else if (qget I u).isNone then "eviction of a pod that is not queued"
+            else "eviction of a pod that must not be evicted (terminal/terminating, static, tolerating the disruption taint, or actively do-not-disrupt)"
+          | some (.delete u g) =>
+            if u != p.uid then "delete of another pod"
+            else match qget I u with
+              | none => "direct delete of a pod that is not queued"
+              | some none => "direct delete although the pod is queued without a node deadline"
+              | some (some d) =>
+                if g < 1 then s!"direct delete with grace period {g}"
+                else if !Spec.Drain.pastThreshold p d s.now then "direct delete earlier than node deadline minus the pod's own grace period"
+                else if !(s.now + g * sec ≤ d || g == 1) then s!"direct delete with grace {g}s that extends past the deadline the pod is queued under"
+                else "direct delete of a static or tolerating pod"
+  | .tick _ => "queue changed / request sent without a Karpenter step"
+  | .change _ _ => "queue changed / request sent without a Karpenter step"
+  | .add _ _ => "Queue.Add dropped an entry, moved a deadline later, or stored a deadline other than the earlier one"
+
+/-- the property's verdict on what the real code did, step by step.  The API server state is advanced
+    with the requests the implementation actually sent (not with the model's). -/
+def judgeImpl (s0 : State) (steps : List Step) (implSteps : List Json) (strict : Bool) : Except String (Bool × String) := do
+  let mut s := s0
+  let mut idx := 0
+  for (st, jo) in steps.zip implSteps do
+    let I' ← parseImplItems (← fld jo "items")
+    let ics ← (← arrF jo "calls").mapM parseImplCall
+    let r ← strF jo "r"
+    if ics.any (fun c => c.call.isNone) then
+      return (false, s!"step {idx}: a removal request that cannot be attributed (unknown pod, or Delete without gracePeriodSeconds)")
+    if ics.any (fun c => !c.pre) then
+      return (false, s!"step {idx}: a removal request without the UID precondition of the pod it was decided for")
+    let calls := ics.filterMap (·.call)
+    if !Spec.Drain.stepOK strict s st I' calls r then
+      return (false, s!"step {idx}: {explain strict s st I' calls r}")
+    s := advance s st I' calls
+    idx := idx + 1
+  if implSteps.length != steps.length then
+    return (false, "implementation reported a different number of steps")
+  return (true, "")
+
+def history (inp impl : Json) : Except String Resp := do
+  let podsJ ← arrF inp "pods"
+  let pods ← (podsJ.zipIdx).mapM (fun (j, i) => parsePod genTables i j)
+  let podsSpec ← (podsJ.zipIdx).mapM (fun (j, i) => parsePod specTables i j)
+  let now ← intF inp "now"
+  if now < 0 then throw "negative initial clock"
+  let steps ← (← arrF inp "steps").mapM (parseStep pods.length)
+  let s0 : State := initState now pods
+  let outs := runModel s0 steps
+  let model := jObj [("steps", jArr (outs.map jStepOut))]
+  let strict := steps.all (fun st => match st with | .add _ _ => false | _ => true)
+  let (ok, why) ← match fldOpt impl "steps" with
+    | none => pure (false, "implementation produced no step list (panic or harness error)")
+    | some js => judgeImpl (initState now podsSpec) steps (← asArr js) strict
+  pure { model := some model, spec := some ok, why := why }
+
+def handle : Handler := fun op inp impl =>
+  match op with
+  | "c10.preds" => preds inp impl
+  | "c10.reconcile" | "c10.drain" | "c10.history" | "c10.controller" => history inp impl
+  | _ => .error s!"unknown op {op}"
 
 end Karp.Driver.C10
